@@ -35,6 +35,7 @@ fn main() {
         "poolobs" => poolobs::run(rest),
         "client" => client::run(rest),
         "cli" => cli::run(rest),
+        "cliforms" => cli::run_forms(rest),
         "bridge" => bridge::run(rest),
         "addr" => addr::run_addr(rest),
         "actprobe" => addr::run_actprobe(rest),
